@@ -374,9 +374,18 @@ func (p *Processor) ChargingDataRelease(
 	ue.CULock.Lock()
 	defer ue.CULock.Unlock()
 
-	sessionChargingReservation(chargingData)
-
+	// the request must name an open charging session of this subscriber; a rejected request has no effect
 	cdr := ue.Cdr[chargingSessionId]
+	if cdr == nil || cdr.ChargingFunctionRecord == nil {
+		logger.ChargingdataPostLog.Errorf("CHFUe[%s]: unknown charging session [%s]", ueId, chargingSessionId)
+		problemDetails := &models.ProblemDetails{
+			Status: http.StatusNotFound,
+			Cause:  "CHARGING_NOT_FOUND",
+		}
+		return problemDetails
+	}
+
+	sessionChargingReservation(chargingData)
 
 	err := p.UpdateCDR(cdr, chargingData)
 	if err != nil {
